@@ -38,7 +38,7 @@ REQUIRED = {"fed_evaluations": 5000, "best_eval_checks": 5000,
             "e2e_runs_judged": 100}
 MIN_NONTRIVIAL = {"quick": 100, "thorough": 500}
 PLAN = [("fed", 1600, 24000), ("e2e", 500, 8000), ("e2e_nan", 500, 8000),
-        ("e2e_tol", 300, 4000), ("e2e_soc", 300, 4000),
+        ("e2e_tol", 600, 6000), ("e2e_soc", 300, 4000),
         ("cross", 300, 6000)]
 
 TOL = 1e-8
